@@ -21,13 +21,16 @@ LEVEL_TEXT = ("Bounded twin contract on the real Pipeline: a cached pipeline (ev
               "items, in sorted order; to_hashable is an assumed contract, checked under C15) and "
               "get_result_from_cache (hit iff the key is not None and resident; on a hit the stored value is entered "
               "into the results exactly like a computed one and the call returns at once unless full_output; on a miss "
-              "nothing changes; the cache's __contains__/get are assumed, the containers are C14). Category 'other' = "
+              "nothing changes; the cache's __contains__/get are assumed, the containers are C14) and, for map runs, "
+              "_get_or_set_cache (a hit returns the stored value and runs nothing; a miss runs the function exactly "
+              "once - ghost call counter - and leaves its value resident under the key of (output name, keyword "
+              "arguments); put/get/contains of the container are assumed contracts). Category 'other' = "
               "those contracts + bounded twin checking; it is not a proof of C09.")
 LEVEL_NOTE = ("Bounds: DAGs of 1..4 functions, histories of length <=4 (quick) / <=6, values from 2 variants per "
               "argument, caches simple/lru/hybrid/disk (non-shared in-process). Trusted: reference twin = the same "
               "pipeline without caching.")
-TECHNIQUE = ("bounded twin (relational) contract checking over call/mutation histories; leaf compute_cache_key "
-             "and get_result_from_cache discharged by z3")
+TECHNIQUE = ("bounded twin (relational) contract checking over call/mutation histories; leaves compute_cache_key, "
+             "get_result_from_cache and _get_or_set_cache discharged by z3")
 EXPLANATION = LEVEL_TEXT
 RULE = ("random DAG x cache type x cached subset x random history; distinct = distinct (DAG, cache, subset, history); "
         "non-trivial = the history repeats an output with different arguments or contains a mutation")
